@@ -344,6 +344,35 @@ func checkC14(e *Env) {
 		longRuns += len(res)
 		mu.Unlock()
 	})
+	// many DISTINCT ordinary calls of each function in one process, then the same ones again
+	// (tables and memos that fill up): only "returns normally" is judged here
+	distinctRuns := 0
+	type wrapCase struct{ family, n int }
+	wrapCases := []wrapCase{{0, 3000}, {1, 3000}, {2, 3000}, {3, 300}, {4, 3000}}
+	if e.Thorough() {
+		wrapCases = []wrapCase{{0, 40000}, {1, 40000}, {2, 40000}, {3, 1500}, {4, 40000}}
+	}
+	parallel(len(wrapCases), e.Workers, func(k int) {
+		g := &seqGen{e: e, r: rng.New(e.Seed, "C14-distinct-"+itoa(k)), bufs: map[int][]byte{}}
+		g.cacheWrap(wrapCases[k].family, wrapCases[k].n)
+		for i := range g.ops {
+			g.ops[i].Keep = false
+		}
+		res, died := e.RunProc(drv, g.ops, nil, 0)
+		for i := range res {
+			if res[i].Panic != "" {
+				e.Violate(&Violation{What: fmt.Sprintf("%s panicked as call %d of a run of %d distinct calls of that kind in one process: %s", fnName(g.ops[i].Fn), i, wrapCases[k].n, oneLine(res[i].Panic, 300)), Ops: g.ops[:i+1], Expected: "returns normally", Observed: res[i], Detail: historyNote})
+				return
+			}
+		}
+		if died != "" {
+			e.Violate(&Violation{What: fmt.Sprintf("the process died during call %d (%s) of a run of distinct calls: %s", len(res), fnName(g.ops[min(len(res), len(g.ops)-1)].Fn), oneLine(died, 300)), Ops: g.ops[:min(len(res)+1, len(g.ops))]})
+			return
+		}
+		mu.Lock()
+		distinctRuns += len(res)
+		mu.Unlock()
+	})
 	concCalls := e.concurrentSmoke(drv, "C14", append(e.smokePool("C14", "chk"), e.smokePool("C14", "str")...), e.pick(2, 12), e.pick(200, 1000), nil)
 	if e.Violations() == 0 && stats.Ops < 1000 {
 		fatalInconclusive("C14: only %d calls completed", stats.Ops)
@@ -353,6 +382,7 @@ func checkC14(e *Env) {
 		"distinct_nontrivial": dist.Len(),
 		"calls_inside_histories_and_under_concurrency":     histCalls + concCalls,
 		"default_source_calls_in_long_runs_of_one_process": longRuns,
+		"calls_in_runs_of_many_distinct_calls_of_one_kind": distinctRuns,
 		"rule":                        "cases are calls of every exported function and method with hostile arguments: Language values {MinInt64, MinInt32, -2^31-1, -10, -1, 0..9, 10, 11, 255, 256, MaxInt32, 2^32, MaxInt64, seeded random} for every function; entropy nil, every length 0..70 and up to the size cap; word counts -40..60 and the extremes of int with default, working, failing, stuttering ((0,nil) x32) and short sources; strings: empty, spaces, one huge token, up to 10^6 tokens, 24 list words with long tails, every shape of invalid UTF-8, NUL, long runs of combining marks, U+FDFA, Hangul, unassigned code points and non-characters, and seeded splices, up to 1 MiB (thorough 16 MiB), each sent to CheckMnemonic, IsMnemonicValid and MnemonicToSeed (as mnemonic, as passphrase, as both); each call runs in a child that announces it first, so a panic, a process death or a call that consumes more than 10 s + 8 s/MiB of CPU is attributed to it; non-trivial = every call; distinct by (function, shape, language)",
 		"samples":                     smp.List(),
 		"calls_per_function":          perFn.Map(),
